@@ -1,6 +1,8 @@
 package codec
 
 import (
+	"bytes"
+	"encoding/json"
 	"fmt"
 	"math/rand"
 	"strings"
@@ -12,6 +14,7 @@ import (
 
 func init() {
 	core.RegisterRecord("codec-prng", recordPrng)
+	core.RegisterReplay("codec-prnghist", replayPrngHist)
 }
 
 type gen interface {
@@ -21,58 +24,371 @@ type gen interface {
 	UnmarshalBinary([]byte) error
 }
 
+// genKind describes one generator type with a binary form. The unit of its output stream is what one call of the
+// narrowest output method returns (MT19937: a 32 bit word from Uint32, everything else: Uint64).
 type genKind struct {
 	name string
-	mk   func() gen // a new instance in its default state
+	mk   func() gen // a new value from the constructor, never seeded by the caller and never stepped
+	zero func() gen // a new zero value; nil where the documentation says that only constructor values are valid
+	blk  int        // block size in stream units of generators with block state, 0 for the others
+	// draw takes the next n stream units. With pairs set, a generator whose Uint64 is documented to be two
+	// narrower outputs (first in the upper bits) is stepped through Uint64 where two units remain.
+	draw func(g gen, n int, pairs bool) []uint64
+}
+
+func draw64(g gen, n int, _ bool) []uint64 {
+	out := make([]uint64, n)
+	for i := range out {
+		out[i] = g.Uint64()
+	}
+	return out
+}
+
+func drawMT32(g gen, n int, pairs bool) []uint64 {
+	m := g.(*prng.MT19937)
+	out := make([]uint64, 0, n)
+	for len(out) < n {
+		if pairs && n-len(out) >= 2 {
+			v := m.Uint64()
+			out = append(out, v>>32, v&0xffffffff)
+			continue
+		}
+		out = append(out, uint64(m.Uint32()))
+	}
+	return out
 }
 
 var genKinds = []genKind{
-	{"MT19937", func() gen { return prng.NewMT19937() }},
-	{"MT19937_64", func() gen { return prng.NewMT19937_64() }},
-	{"SplitMix64", func() gen { return prng.NewSplitMix64(0) }},
-	{"Xoshiro256plus", func() gen { return prng.NewXoshiro256plus(0) }},
-	{"Xoshiro256plusplus", func() gen { return prng.NewXoshiro256plusplus(0) }},
-	{"Xoshiro256starstar", func() gen { return prng.NewXoshiro256starstar(0) }},
+	{"MT19937", func() gen { return prng.NewMT19937() }, func() gen { return new(prng.MT19937) }, 624, drawMT32},
+	{"MT19937_64", func() gen { return prng.NewMT19937_64() }, func() gen { return new(prng.MT19937_64) }, 312, draw64},
+	// "The zero value is usable directly."
+	{"SplitMix64", func() gen { return prng.NewSplitMix64(0) }, func() gen { return new(prng.SplitMix64) }, 0, draw64},
+	// "A Xoshiro256... value is only valid if returned by NewXoshiro256...": no zero values
+	{"Xoshiro256plus", func() gen { return prng.NewXoshiro256plus(0) }, nil, 0, draw64},
+	{"Xoshiro256plusplus", func() gen { return prng.NewXoshiro256plusplus(0) }, nil, 0, draw64},
+	{"Xoshiro256starstar", func() gen { return prng.NewXoshiro256starstar(0) }, nil, 0, draw64},
 }
+
+// seedOf is the seed value that stands for seed number s >= 1 of the specification (never 0 and never the
+// default seed of the Mersenne twisters, so that no seeded stream coincides with the stream of an unseeded
+// constructor value).
+func seedOf(seed int64, s int) uint64 { return uint64(seed)*1000003 + uint64(s)*7919 }
+
+// refStream returns the first n units of reference stream s of the kind: the outputs of a value that came from
+// the constructor and was (s >= 1) seeded with seedOf(s) or (s = 0) never seeded. It never passes through the
+// binary form.
+func refStream(kind genKind, seed int64, s, n int) []uint64 {
+	g := kind.mk()
+	if s != 0 {
+		g.Seed(seedOf(seed, s))
+	}
+	return kind.draw(g, n, false)
+}
+
+// ---- spec -> code: histories printed by PrngHist.tla ---------------------------------------------------
+
+// histOp is one operation of a history with the observation the specification expects, printed as the tuple
+// <<op, g, f, seed, j, s, n, b>>.
+type histOp struct {
+	Op   string
+	G    int
+	F    string
+	Seed int
+	J    int
+	S    int
+	N    int
+	B    int
+}
+
+func (o *histOp) UnmarshalJSON(data []byte) error {
+	var t []json.RawMessage
+	if err := json.Unmarshal(data, &t); err != nil {
+		return err
+	}
+	if len(t) != 8 {
+		return fmt.Errorf("operation tuple of %d fields", len(t))
+	}
+	dst := []any{&o.Op, &o.G, &o.F, &o.Seed, &o.J, &o.S, &o.N, &o.B}
+	for i := range t {
+		if err := json.Unmarshal(t[i], dst[i]); err != nil {
+			return err
+		}
+	}
+	return nil
+}
+
+// histFin is the expected final state <<g, s, n, b>> of one generator.
+type histFin struct{ G, S, N, B int }
+
+func (f *histFin) UnmarshalJSON(data []byte) error {
+	var t []int
+	if err := json.Unmarshal(data, &t); err != nil {
+		return err
+	}
+	if len(t) != 4 {
+		return fmt.Errorf("final state tuple of %d fields", len(t))
+	}
+	f.G, f.S, f.N, f.B = t[0], t[1], t[2], t[3]
+	return nil
+}
+
+type histCase struct {
+	K    string    `json:"k"`
+	Blk  int       `json:"blk"`
+	Tail int       `json:"tail"`
+	Ini  int       `json:"ini"`
+	Ops  []histOp  `json:"ops"`
+	Fin  []histFin `json:"fin"`
+}
+
+// replayPrngHist pushes every history through real generators of the kinds named by kinds=a,b,.. and compares
+// each observation with the one the specification printed: outputs with the reference stream at the expected
+// place, re-encoded bytes with the bytes of the expected token.
+func replayPrngHist(in *core.Lines, args []string, seed int64, sum *core.Summary) error {
+	var kinds []genKind
+	pairs := false
+	for _, a := range args {
+		switch {
+		case strings.HasPrefix(a, "kinds="):
+			for _, n := range strings.Split(a[len("kinds="):], ",") {
+				found := false
+				for _, k := range genKinds {
+					if k.name == n {
+						kinds = append(kinds, k)
+						found = true
+					}
+				}
+				if !found {
+					return fmt.Errorf("unknown generator kind %q", n)
+				}
+			}
+		case a == "draw=pairs":
+			pairs = true
+		}
+	}
+	if len(kinds) == 0 {
+		return fmt.Errorf("codec-prnghist needs kinds=<name,...>")
+	}
+	refs := map[string][]uint64{}
+	ref := func(kind genKind, s, upto int) []uint64 {
+		key := fmt.Sprintf("%s/%d", kind.name, s)
+		if len(refs[key]) < upto {
+			refs[key] = refStream(kind, seed, s, upto+4096)
+		}
+		return refs[key]
+	}
+	for {
+		line, ok := in.Next()
+		if !ok {
+			break
+		}
+		var c histCase
+		if err := json.Unmarshal(line, &c); err != nil {
+			return fmt.Errorf("line %d: %v", in.N, err)
+		}
+		if c.K != "prng-hist" {
+			return fmt.Errorf("line %d: unknown record kind %q", in.N, c.K)
+		}
+		var raw any
+		json.Unmarshal(line, &raw)
+		for _, kind := range kinds {
+			if kind.blk != 0 && kind.blk != c.Blk {
+				return fmt.Errorf("line %d: history for block size %d replayed into %s (block size %d)", in.N, c.Blk, kind.name, kind.blk)
+			}
+			needsZero := false
+			for _, o := range c.Ops {
+				needsZero = needsZero || (o.Op == "make" && o.F == "zero")
+			}
+			if needsZero && kind.zero == nil {
+				sum.Count("skipped_zero_value_not_valid_"+kind.name, 1)
+				continue
+			}
+			sum.Cases++
+			sum.Nontrivial++
+			replayOneHist(kind, seed, c, raw, pairs, ref, sum)
+			if sum.Cases%9000 == 7 {
+				sum.Sample(map[string]any{"kind": kind.name, "history": raw})
+			}
+		}
+	}
+	return nil
+}
+
+func replayOneHist(kind genKind, seed int64, c histCase, raw any, pairs bool, ref func(genKind, int, int) []uint64, sum *core.Summary) {
+	sig := "codec:prng." + kind.name
+	gens := map[int]gen{}
+	bytesOf := map[int][]byte{}
+	var slot []byte
+	slotTok := 0
+	fail := func(what, msg string) { sum.Fail(sig+":"+what, msg, raw) }
+	// expect compares the next j units of g with places n .. n+j-1 of reference stream s
+	expect := func(step int, g, s, n, j int) bool {
+		var got []uint64
+		o := core.Call(func() { got = kind.draw(gens[g], j, pairs) })
+		if o.Panicked {
+			fail("output-panic", fmt.Sprintf("operation %d: output of generator %d panicked: %s", step, g, o.Text))
+			return false
+		}
+		want := ref(kind, s, n+j)[n : n+j]
+		for i := range got {
+			if got[i] != want[i] {
+				fail("stream-differs", fmt.Sprintf("operation %d: generator %d should continue stream %d at place %d; output %d of %d is %d, the stream has %d there",
+					step, g, s, n, i, j, got[i], want[i]))
+				return false
+			}
+		}
+		return true
+	}
+	marshal := func(step, g, b int) ([]byte, bool) {
+		var data []byte
+		var err error
+		o := core.Call(func() { data, err = gens[g].MarshalBinary() })
+		switch {
+		case o.Panicked:
+			fail("MarshalBinary-panic", fmt.Sprintf("operation %d: MarshalBinary of generator %d panicked: %s", step, g, o.Text))
+			return nil, false
+		case err != nil:
+			fail("MarshalBinary-error", fmt.Sprintf("operation %d: MarshalBinary of generator %d returned %v", step, g, err))
+			return nil, false
+		}
+		data = append([]byte(nil), data...)
+		if prev, ok := bytesOf[b]; ok {
+			if !bytes.Equal(prev, data) {
+				i := 0
+				for i < len(prev) && i < len(data) && prev[i] == data[i] {
+					i++
+				}
+				fail("reencode-differs", fmt.Sprintf("operation %d: generator %d must encode to the bytes it was restored from / last wrote (token %d); %d and %d bytes, first difference at byte %d",
+					step, g, b, len(prev), len(data), i))
+				return nil, false
+			}
+		} else {
+			bytesOf[b] = data
+		}
+		return data, true
+	}
+	for i, o := range c.Ops {
+		switch o.Op {
+		case "make":
+			if o.F == "zero" {
+				gens[o.G] = kind.zero()
+			} else {
+				gens[o.G] = kind.mk()
+			}
+		case "seed":
+			gens[o.G].Seed(seedOf(seed, o.Seed))
+		case "step":
+			if !expect(i+1, o.G, o.S, o.N, o.J) {
+				return
+			}
+		case "save":
+			data, ok := marshal(i+1, o.G, o.B)
+			if !ok {
+				return
+			}
+			slot, slotTok = data, o.B
+		case "restore":
+			if slot == nil || slotTok != o.B {
+				fail("harness", fmt.Sprintf("operation %d: restore of token %d but the slot holds token %d", i+1, o.B, slotTok))
+				return
+			}
+			buf := append([]byte(nil), slot...)
+			var err error
+			oc := core.Call(func() { err = gens[o.G].UnmarshalBinary(buf) })
+			// "UnmarshalBinary must copy the data if it wishes to retain the data after returning"
+			for k := range buf {
+				buf[k] = 0xa5
+			}
+			switch {
+			case oc.Panicked:
+				fail("UnmarshalBinary-panic", fmt.Sprintf("operation %d: UnmarshalBinary of %d state bytes into generator %d panicked: %s", i+1, len(slot), o.G, oc.Text))
+				return
+			case err != nil:
+				fail("UnmarshalBinary-rejects-own-state", fmt.Sprintf("operation %d: UnmarshalBinary of the %d bytes MarshalBinary wrote returned %v", i+1, len(slot), err))
+				return
+			}
+		default:
+			fail("harness", "unknown operation "+o.Op)
+			return
+		}
+	}
+	// final observation: every generator whose place the specification knows re-encodes to its token (if any)
+	// and continues its stream over the next Tail units
+	for _, f := range c.Fin {
+		if f.S < 0 {
+			continue
+		}
+		if f.B != 0 {
+			if _, ok := marshal(len(c.Ops)+1, f.G, f.B); !ok {
+				return
+			}
+		}
+		if !expect(len(c.Ops)+1, f.G, f.S, f.N, c.Tail) {
+			return
+		}
+	}
+}
+
+// ---- code -> spec: recorded histories for PrngStreamTrace.tla -------------------------------------------
 
 type prngEvent struct {
 	Op   string `json:"op"`
 	Kind string `json:"kind"`
 	G    int    `json:"g"`
+	F    string `json:"f"`
 	S    int    `json:"s"`
 	N    int    `json:"n"`
 	K    int    `json:"k"`
+	B    int    `json:"b"`
 	Cut  int    `json:"cut"`
+	Ext  int    `json:"ext"`
 	Err  bool   `json:"err"`
 }
 
-// recordPrng drives the real generators through random histories of output / MarshalBinary /
-// UnmarshalBinary calls and logs them for PrngStreamTrace.tla. Outputs are logged by their place in
-// reference streams produced by fresh generators of the same type and seed; the driver keeps no model
-// of where a generator should be.
+// recordPrng drives the real generators through random histories of construction / Seed / output /
+// MarshalBinary / UnmarshalBinary calls and logs them for PrngStreamTrace.tla. Outputs are logged by their
+// place in reference streams produced by generators of the same type that never pass through the binary form;
+// byte strings are logged by a number given in order of first appearance. The driver keeps no model of where a
+// generator should be: it only remembers whether a value may be asked for output at all.
+//
+// After the random history, every truncation of a saved state and a few extensions of it are offered to
+// UnmarshalBinary (each into a new value).
 func recordPrng(out *core.Out, args []string, seed int64, sum *core.Summary) error {
-	steps, refLen := 2500, 6000
+	steps := 600 // operations per generator type; a run of outputs is one operation
 	only := ""
+	sweep := true
 	for _, a := range args {
 		switch {
 		case strings.HasPrefix(a, "steps="):
 			fmt.Sscan(a[len("steps="):], &steps)
 		case strings.HasPrefix(a, "kind="):
 			only = a[len("kind="):]
+		case a == "sweep=off":
+			sweep = false
 		}
 	}
+	refLen := 40*steps + 1400
 	rnd := rand.New(rand.NewSource(seed))
 	for _, kind := range genKinds {
 		if only != "" && only != kind.name {
 			continue
 		}
-		out.Emit(prngEvent{Op: "reset", Kind: kind.name})
-		seedOf := func(s int) uint64 { return uint64(seed)*1000003 + uint64(s)*7919 }
+		kind := kind
+		ev := func(e prngEvent) {
+			e.Kind = kind.name
+			if e.F == "" {
+				e.F = "-"
+			}
+			out.Emit(e)
+		}
+		ev(prngEvent{Op: "reset"})
 		type place struct{ s, n int }
 		where := map[uint64]place{}
-		for s := 1; s <= 3; s++ {
+		for s := 0; s <= 3; s++ {
 			g := kind.mk()
-			g.Seed(seedOf(s))
+			if s != 0 {
+				g.Seed(seedOf(seed, s))
+			}
 			for n := 0; n < refLen; n++ {
 				v := g.Uint64()
 				if _, dup := where[v]; !dup {
@@ -80,71 +396,164 @@ func recordPrng(out *core.Out, args []string, seed int64, sum *core.Summary) err
 				}
 			}
 		}
+		tokens := map[string]int{}
+		tokenOf := func(b []byte) int {
+			if t, ok := tokens[string(b)]; ok {
+				return t
+			}
+			tokens[string(b)] = len(tokens) + 1
+			return len(tokens)
+		}
 		gens := make([]gen, 5)
-		seeded := make([]bool, 5)
+		usable := make([]bool, 5) // the value may be asked for output (made by the constructor, seeded or restored)
 		slots := make([][]byte, 7)
-		emitted := 0
-		outputs := 0
-		for emitted < steps {
-			g := 1 + rnd.Intn(4)
-			switch r := rnd.Intn(10); {
-			case gens[g] == nil || !seeded[g] || r == 0:
-				s := 1 + rnd.Intn(3)
+		emitted, outputs, ops := 0, 0, 0
+		mkNew := func(g int) {
+			f := "ctor"
+			if kind.zero != nil && rnd.Intn(3) == 0 {
+				f = "zero"
+				gens[g] = kind.zero()
+			} else {
 				gens[g] = kind.mk()
-				gens[g].Seed(seedOf(s))
-				seeded[g] = true
-				out.Emit(prngEvent{Op: "new", Kind: kind.name, G: g, S: s})
+			}
+			usable[g] = f == "ctor"
+			ev(prngEvent{Op: "make", G: g, F: f})
+			emitted++
+		}
+		emitOut := func(g, n int) {
+			for i := 0; i < n; i++ {
+				v := gens[g].Uint64()
+				p, ok := where[v]
+				if !ok {
+					p = place{-1, -1}
+				}
+				ev(prngEvent{Op: "out", G: g, S: p.s, N: p.n})
 				emitted++
-			case r <= 4:
-				// a run of outputs; lengths are chosen so that the 312/624-word state boundaries are crossed
-				// at every phase
-				n := []int{1, 2, 3, 7, 150, 311, 312, 313, 623, 624, 625}[rnd.Intn(11)]
-				if outputs+n > refLen-10 {
+			}
+			outputs += n
+		}
+		restore := func(g, k, cut, ext int) bool {
+			data := append([]byte(nil), slots[k][:len(slots[k])-cut]...)
+			for i := 0; i < ext; i++ {
+				data = append(data, byte(0x5a+i))
+			}
+			var err error
+			o := core.Call(func() { err = gens[g].UnmarshalBinary(data) })
+			if o.Panicked {
+				sum.Fail("codec:prng."+kind.name+".UnmarshalBinary:panic",
+					fmt.Sprintf("UnmarshalBinary of %d bytes (state of %d bytes, %d cut off, %d appended) panicked: %s", len(data), len(slots[k]), cut, ext, o.Text), nil)
+				// the log gets an event no action of the trace specification accepts
+				ev(prngEvent{Op: "panic", G: g, K: k, Cut: cut, Ext: ext, Err: true})
+				emitted++
+				usable[g] = false
+				return false
+			}
+			for i := range data {
+				data[i] = 0xa5
+			}
+			ev(prngEvent{Op: "restore", G: g, K: k, Cut: cut, Ext: ext, Err: err != nil})
+			emitted++
+			usable[g] = err == nil
+			return err == nil
+		}
+		for ; ops < steps; ops++ {
+			g := 1 + rnd.Intn(4)
+			switch r := rnd.Intn(20); {
+			case gens[g] == nil || r == 0:
+				mkNew(g)
+			case r <= 2 || (!usable[g] && r <= 8):
+				s := 1 + rnd.Intn(3)
+				gens[g].Seed(seedOf(seed, s))
+				usable[g] = true
+				ev(prngEvent{Op: "seed", G: g, S: s})
+				emitted++
+			case r <= 8:
+				if !usable[g] {
 					continue
 				}
-				for i := 0; i < n; i++ {
-					v := gens[g].Uint64()
-					p, ok := where[v]
-					if !ok {
-						p = place{-1, -1}
-					}
-					out.Emit(prngEvent{Op: "out", Kind: kind.name, G: g, S: p.s, N: p.n})
-					emitted++
+				// a run of outputs; mostly short, one in four of a length chosen so that the 312/624-word state
+				// boundaries are crossed at every phase
+				n := 1 + rnd.Intn(3)
+				if rnd.Intn(4) == 0 {
+					n = []int{7, 150, 311, 312, 313, 623, 624, 625}[rnd.Intn(8)]
 				}
-				outputs += n
-			case r <= 6:
+				if outputs+n > refLen-700 {
+					continue
+				}
+				emitOut(g, n)
+			case r <= 13:
+				if !usable[g] {
+					continue
+				}
 				k := 1 + rnd.Intn(6)
-				b, err := gens[g].MarshalBinary()
-				slots[k] = b
-				out.Emit(prngEvent{Op: "save", Kind: kind.name, G: g, K: k, Err: err != nil})
+				var b []byte
+				var err error
+				o := core.Call(func() { b, err = gens[g].MarshalBinary() })
+				if o.Panicked {
+					sum.Fail("codec:prng."+kind.name+".MarshalBinary:panic", "MarshalBinary panicked: "+o.Text, nil)
+					ev(prngEvent{Op: "panic", G: g, K: k, Err: true})
+					emitted++
+					continue
+				}
+				slots[k] = append([]byte(nil), b...)
+				ev(prngEvent{Op: "save", G: g, K: k, B: tokenOf(b), Err: err != nil})
 				emitted++
 			default:
 				k := 1 + rnd.Intn(6)
 				if slots[k] == nil {
 					continue
 				}
-				data := slots[k]
-				cut := 0
-				if rnd.Intn(5) == 0 {
-					cut = 1 + rnd.Intn(len(data))
+				cut, ext := 0, 0
+				switch rnd.Intn(8) {
+				case 0:
+					cut = 1 + rnd.Intn(len(slots[k]))
+				case 1:
+					ext = 1 + rnd.Intn(9)
 				}
 				if rnd.Intn(3) == 0 {
-					// restore into a brand-new instance that never produced output
-					gens[g] = kind.mk()
+					// restore into a brand-new value that never produced output
+					mkNew(g)
 				}
-				var err error
-				o := core.Call(func() { err = gens[g].UnmarshalBinary(data[:len(data)-cut]) })
-				if o.Panicked {
-					sum.Fail("codec:prng."+kind.name+".UnmarshalBinary:panic", fmt.Sprintf("UnmarshalBinary of %d of %d state bytes panicked: %s", len(data)-cut, len(data), o.Text), nil)
-					err = fmt.Errorf("panic")
-				}
-				out.Emit(prngEvent{Op: "restore", Kind: kind.name, G: g, K: k, Cut: cut, Err: err != nil})
-				emitted++
-				seeded[g] = err == nil
+				restore(g, k, cut, ext)
 			}
+		}
+		// positions within the reference streams are bounded by refLen-700 outputs in total, so a restored
+		// generator can always be observed for another block
+		if sweep {
+			var src gen = kind.mk()
+			src.Seed(seedOf(seed, 1))
+			gens[1], usable[1] = src, true
+			ev(prngEvent{Op: "make", G: 1, F: "ctor"})
+			ev(prngEvent{Op: "seed", G: 1, S: 1})
+			emitOut(1, 3)
+			b, err := gens[1].MarshalBinary()
+			slots[1] = append([]byte(nil), b...)
+			ev(prngEvent{Op: "save", G: 1, K: 1, B: tokenOf(b), Err: err != nil})
+			refused := 0
+			for cut := 1; cut <= len(slots[1]); cut++ {
+				gens[2] = kind.mk()
+				ev(prngEvent{Op: "make", G: 2, F: "ctor"})
+				if !restore(2, 1, cut, 0) {
+					refused++
+				}
+			}
+			for _, ext := range []int{1, 2, 7, 8, 9, len(slots[1])} {
+				gens[2] = kind.mk()
+				ev(prngEvent{Op: "make", G: 2, F: "ctor"})
+				if restore(2, 1, 0, ext) {
+					emitOut(2, 3)
+					sum.Count("extended_state_accepted_"+kind.name, 1)
+				} else {
+					sum.Count("extended_state_refused_"+kind.name, 1)
+				}
+			}
+			sum.Count("truncations_"+kind.name, len(slots[1]))
+			sum.Count("truncations_refused_"+kind.name, refused)
 		}
 		sum.Traces++
 		sum.Count("outputs_"+kind.name, outputs)
+		sum.Count("operations_"+kind.name, ops)
+		sum.Count("random_events_"+kind.name, emitted)
 	}
 	return nil
 }
